@@ -100,6 +100,10 @@ def sys_text(comps):
 def enumerate_cases(tier, seed):
     for name, comps, ext in systems(tier):
         yield ("system", {"name": name, "comps": comps, "ext": ext, "tier": tier})
+    # two (three) live iterators on ONE System object: every interleaving of their next() calls
+    for name, comps, ext in systems(tier):
+        yield ("interleave", {"name": name, "comps": comps, "ext": ext, "tier": tier, "iters": 2})
+    yield ("interleave", {"name": "two-tokens", "comps": systems(tier)[0][1], "ext": None, "tier": tier, "iters": 3})
     # several System objects built from the same text with different externally supplied totals, in every order
     yield ("ext-history", {"text": "OCC.|40%|c1ccccc1", "exts": [120.0, 400.0, None]})
     yield ("ext-history", {"text": "OCC.|25%|NCCCF.|25%|CCO", "exts": [150.0, None, 333.0]})
@@ -107,6 +111,21 @@ def enumerate_cases(tier, seed):
     step = 400
     for lo in range(0, len(cfgs), step):
         yield ("refusal", {"cfgs": cfgs[lo : lo + step]})
+    # masses fully specified, but one COMPONENT is not generable (no distribution / negative weight / open end): the
+    # system must refuse on every random path, whichever component the pick lands on
+    bad = ["{[][$]CC[$]; [$][H][]}", "OC{[>][<]CC[>][<]}CBr", "N{[$][$|-1|]CC[$][$]}|gauss(40, 0)|F"]
+    good = ["CCO", "NCCCF", "N{[>][<]CC[>][<]}|gauss(40.0, 0)|F"]
+    k = 0
+    for b in bad:
+        for g1 in good:
+            for g2 in (None, good[(good.index(g1) + 1) % 3]):
+                for pos in range(2 if g2 is None else 3):
+                    k += 1
+                    parts = [g1] + ([g2] if g2 else [])
+                    parts.insert(pos, b)
+                    mixes = [["95%", "5%"], ["300", "700"], ["10%", "90%"]][k % 3] if g2 is None else [["60%", "30%", "10%"], ["100", "200", "700"], ["5%", "90%", "50"]][k % 3]
+                    text = "".join(p_ + f".|{m_}|" for p_, m_ in zip(parts, mixes))
+                    yield ("refusal-component", {"text": text, "ext": 1000.0 if all(m_.endswith("%") for m_ in mixes) else None, "bad": b})
 
 
 def member_sets(comps):
@@ -127,6 +146,156 @@ def member_sets(comps):
             raise HarnessError("component is not well posed")
         sets.append({member_form(R.plain_smiles_of_labelled(c)) for c in out})
     return sets
+
+
+def eval_refusal_component(res, data):
+    import gbigsmiles
+    from gbigsmiles.system import System
+
+    text, ext, badc = data["text"], data["ext"], data["bad"]
+    st, obj = run_limited(lambda: gbigsmiles.System(text, ext), (), 20)
+    res["nontrivial"] = ["refusal-component", text]
+    res["sample"] = {"system": text, "non_generable_component": badc}
+    if st != "ok":
+        res["outcomes"] = ["refusal-component:rejected-at-parse"]
+        res["traces"] = 1
+        return res  # rejecting the text outright is a refusal too
+
+    def run_single(rng):
+        try:
+            mg = gbigsmiles.System(text, ext).generate(rng=rng)
+            return ("ok", mg.smiles)
+        except HarnessError:
+            raise
+        except Exception as e:  # noqa
+            return ("exc", type(e).__name__)
+
+    def run_iter(rng):
+        old = System.generator.fget.__defaults__
+        System.generator.fget.__defaults__ = (rng,)
+        try:
+            out = []
+            for mg in gbigsmiles.System(text, ext).generator:
+                out.append(mg.smiles)
+                if len(out) >= 3:
+                    break
+            return ("ok", out)
+        except HarnessError:
+            raise
+        except Exception as e:  # noqa
+            return ("exc", type(e).__name__) if not out else ("ok", out)
+        finally:
+            System.generator.fget.__defaults__ = old
+
+    n = 0
+    for which, run in (("generate()", run_single), ("iterating .generator", run_iter)):
+        for rng, obs in explore(run, max_exec=600):
+            n += 1
+            res["states"] += max(1, len(rng.points))
+            res["transitions"] += max(1, len(rng.points))
+            if obs[0] == "ok":
+                viol(res, f"C13|non-generable-component-generates|{'single' if which == 'generate()' else 'iterate'}", f"System({text!r}, {ext}) has the non-generable component {badc!r} but {which} returns {obs[1]} on the random path {rng.choices}", {"text": text, "ext": ext, "script": rng.choices})
+                break
+    res["traces"] = n
+    res["evals"] = n
+    res["outcomes"] = [f"refusal-component:{n}"]
+    return res
+
+
+def eval_interleave(res, data, comps, ext, text, name):
+    """Several live iterators of ONE System object, each with its own seeded generator.  A scheduler (the scripted
+    generator, one decision per next() call; the iterator that ran last is alternative 0, so a deviation is a
+    preemption) enumerates every interleaving.  Oracle: each iterator yields exactly the sequence the same seed yields
+    on a fresh object used alone (and that sequence obeys the stop rule)."""
+    import gbigsmiles
+    import numpy as np
+    from gbigsmiles.system import System
+
+    cfg = [("u", None) if m is None else ("p", m[:-1]) if m.endswith("%") else ("a", m) for _, m in comps]
+    ref = c12.solve(cfg, None if ext is None else str(ext))
+    Smass = float(ref[1])
+    k = int(data.get("iters", 2))
+    seeds = [11, 22, 33][:k]
+
+    def make_iter(obj, seed):
+        old = System.generator.fget.__defaults__
+        System.generator.fget.__defaults__ = (np.random.default_rng(seed),)
+        try:
+            return iter(obj.generator)
+        finally:
+            System.generator.fget.__defaults__ = old
+
+    def alone(seed):
+        it = make_iter(gbigsmiles.System(text, ext), seed)
+        return [(mg.smiles, heavy_mass(mg.smiles)) for mg in it]
+
+    st, base = run_limited(lambda: [alone(sd) for sd in seeds], (), 120)
+    if st != "ok":
+        viol(res, f"C13|interleave-baseline|{name}", f"System({text!r}): single iteration fails: {st} {base}", {"text": text})
+        return res
+    for b in base:
+        acc = 0.0
+        for (smi, w) in b:
+            if acc >= Smass - 1e-9:
+                viol(res, f"C13|continues-past-system-mass|{name}", f"System({text!r}): seeded iteration continues past the system mass", {"text": text})
+            acc += w
+        if acc < Smass - 1e-9:
+            viol(res, f"C13|stops-early|{name}", f"System({text!r}): seeded iteration stops at {acc:.3f} < {Smass:.3f}", {"text": text})
+
+    def run(sched):
+        try:
+            obj = gbigsmiles.System(text, ext)
+            its = [make_iter(obj, sd) for sd in seeds]
+            seqs = [[] for _ in its]
+            done = [False] * len(its)
+            order = list(range(len(its)))  # last-run iterator first
+            trace = []
+            steps = 0
+            while not all(done):
+                enabled = [i for i in order if not done[i]]
+                i = enabled[int(sched.choice(len(enabled)))] if len(enabled) > 1 else enabled[0]
+                order.remove(i)
+                order.insert(0, i)
+                trace.append(i)
+                steps += 1
+                if steps > 400:
+                    return ("runaway", seqs, trace)
+                try:
+                    mg = next(its[i])
+                    seqs[i].append((mg.smiles, heavy_mass(mg.smiles)))
+                except StopIteration:
+                    done[i] = True
+            return ("ok", seqs, trace)
+        except HarnessError:
+            raise
+        except Exception as e:  # noqa
+            return ("exc", f"{type(e).__name__}: {str(e)[:100]}", None)
+
+    n = 0
+    outcomes = set()
+    for sched, obs in explore(run, max_exec=MAX_EXEC[data["tier"]]):
+        n += 1
+        res["states"] += len(sched.points)
+        res["transitions"] += len(sched.points)
+        if obs[0] != "ok":
+            viol(res, f"C13|interleave-{obs[0]}|{name}", f"System({text!r}) with {k} live iterators: {obs[1] if obs[0] == 'exc' else 'does not stop'}", {"text": text, "script": sched.choices})
+            continue
+        outcomes.add(tuple(len(x) for x in obs[1]))
+        for i, sq in enumerate(obs[1]):
+            if sq != base[i]:
+                tot = sum(w for _, w in sq)
+                viol(res, f"C13|depends-on-other-live-iterator|{name}", f"System({text!r}): with {k} live iterators on one object (schedule {''.join('ABC'[j] for j in obs[2])}) iterator {'ABC'[i]} yields {len(sq)} molecules with total mass {tot:.3f} (system mass {Smass:.3f}); alone, the same seeded generator yields {len(base[i])}", {"text": text, "script": sched.choices})
+                break
+    res["capped"] = bool(explore.capped)
+    if res["capped"]:
+        res["capped_note"] = f"every interleaving with <= {explore.completed_bound} preemptions covered"
+    res["traces"] = n
+    res["evals"] = n
+    res["nontrivial"] = [name, "interleave", k, n]
+    res["outcomes"] = [f"{name}:interleave:{o}" for o in sorted(outcomes)]
+    res["sample"] = {"system": text, "live_iterators": k, "interleavings": n, "lengths_alone": [len(b) for b in base]}
+    res["extra"] = {"interleavings": n}
+    return res
 
 
 def eval_case(kind, data):
@@ -226,10 +395,14 @@ def eval_case(kind, data):
         res["sample"] = {"non_generable_configurations_checked": n}
         return res
 
+    if kind == "refusal-component":
+        return eval_refusal_component(res, data)
     comps = [(c[0], c[1]) for c in data["comps"]]
     ext = data["ext"]
     text = sys_text(comps)
     name = data["name"]
+    if kind == "interleave":
+        return eval_interleave(res, data, comps, ext, text, name)
     cfg = [("u", None) if m is None else ("p", m[:-1]) if m.endswith("%") else ("a", m) for _, m in comps]
     ref = c12.solve(cfg, None if ext is None else str(ext))
     if ref[0] != "determined":
